@@ -2,8 +2,8 @@
 # round-6 pipeline for one delivered seed: confirm (scratch worktree, affected-package suite), then run
 # the property's quick check against it in a lane.  usage: tools/seedpipe.sh <ID> <lane>
 id=$1; lane=$2
-export SEED_BASE=/tmp/seed6 SEED_SUFFIX=6
+export SEED_BASE=${SEED_BASE:-/tmp/seed6} SEED_SUFFIX=${SEED_SUFFIX:-6}
 cd /verif
-tools/seedconfirm.py $id a > /tmp/seed6/$id.confirm.log 2>&1
-tail -1 /tmp/seed6/$id.confirm.log | cut -c1-300
-VERIF_REPO=/root/w/$lane/repo /root/w/$lane/verif/tools/seedtest.py /verif/seeded/$id-6a quick 2>&1 | tail -2
+tools/seedconfirm.py $id a > $SEED_BASE/$id.confirm.log 2>&1
+tail -1 $SEED_BASE/$id.confirm.log | cut -c1-300
+VERIF_REPO=/root/w/$lane/repo /root/w/$lane/verif/tools/seedtest.py /verif/seeded/$id-${SEED_SUFFIX}a quick 2>&1 | tail -2
